@@ -179,6 +179,19 @@ def standin_compile(tier, seed):
                 R.bad(f"optimize_for_target_gateset raised {type(ex).__name__}: {str(ex)[:120]}", target=name, circuit=circ)
                 continue
             _check_compiled(R, name, gs, circ, out, sorted(circ.all_qubits()))
+    # operations no target can translate (reset, a noise channel, a gate that still holds a symbol): compilation does not crash and they stay in place
+    import sympy
+    for name, gs in _targets():
+        for odd in (cirq.reset(a), cirq.depolarize(0.1)(a), cirq.bit_flip(0.2)(b)):
+            circ = cirq.Circuit(cirq.H(a), cirq.CNOT(a, b), odd, cirq.CNOT(a, b))
+            R.cases += 1
+            try:
+                out = cirq.optimize_for_target_gateset(circ, gateset=gs)
+            except Exception as ex:
+                R.bad(f"optimize_for_target_gateset raised {type(ex).__name__} on a circuit holding an operation without a matrix: {str(ex)[:100]}", target=name, circuit=circ)
+                continue
+            if odd not in [o.untagged for o in out.all_operations()]:
+                R.bad("an operation the target cannot translate disappeared from the compiled circuit", target=name, circuit=circ, operation=odd)
     return R.out(F + "/optimize_for_target_gateset.py:optimize_for_target_gateset", "compile", f"{per} seeded circuits (1-4 qubits, <= 5 operations of ~40 gate makers incl. product-structured three-qubit matrices, tags, re-compilation) and 7 sub-circuit operation forms x 17 target gatesets / option sets")
 standin_compile.prop = "C07"
 
